@@ -46,6 +46,30 @@ CLAIMED = {
                  "its accessor subscripts.  Not decided: exactness of by-name lookups on particular contents (std::map trusted)."),
         "note": "Trusted: clang 14 AST/CFG, std::map/vector semantics, valid C strings from callers, NDEBUG.",
     },
+    "C13": {
+        "level": "proof",
+        "design_ref": "DESIGN.md section 3, C13 (R13.1-R13.4)",
+        "technique": "CFG dominance (check_latest before table reads), post-dominance of cache reset, table/bit/freshen agreement, merge-loop coverage",
+        "text": ("Decides the freshness and coverage clauses of C13: in every query member of InterrogateDatabase check_latest() dominates "
+                 "every read of a primary table or by-name cache (so a query issued after a later load request sees the new file); merge_from "
+                 "resets the cache-freshness word after its last mutation, lookup() refreshes exactly the stale table and sets its bit, each "
+                 "lookup_* passes matching table/bit/freshen and each freshen_* rebuilds its table from the right map and key; merge_from copies "
+                 "and renumbers every record of all six kinds (shared types renumbered before merge_with, global-ness is the union); "
+                 "request_module gives each module its own contiguous range and read() rejects a mismatching range.  Not decided: order "
+                 "independence and which definition wins in merge_with (histories of run-time contents)."),
+        "note": "Trusted: clang 14 AST/CFG, std::map semantics; single-threaded use of the singleton.",
+    },
+    "C19": {
+        "level": "proof",
+        "design_ref": "DESIGN.md section 3, C19 (R19.1 o1-o3)",
+        "technique": "typestate dataflow over the CFG of both main()s (stream phase may-analysis + exit-status must-analysis)",
+        "text": ("Decides C19 over all paths of interrogate's and interrogate_module's main (hence every fault point): each reachable output "
+                 "stream's open is tested; after the last write on every path to a possibly-zero exit the stream is closed/flushed and then "
+                 "tested (a test before the flush does not count); every failure edge reaches only non-zero exits (exit(k!=0), non-zero "
+                 "constant, or a status variable assigned non-zero on all paths and not reset); the dead output_include stream stays "
+                 "unreachable.  Not decided: that libstdc++ reports every write(2)/close(2) failure through the stream state."),
+        "note": "Trusted: clang 14 CFG, iostream error reporting, Filename::open_write result.",
+    },
 }
 
 NOT_APPLICABLE = {
